@@ -413,3 +413,73 @@ func (p *Prog) classifyCopyDst(fn *ssa.Function, m *ModSet, dst ssa.Value) {
 	}
 	m.Index = true
 }
+
+// NonNilGlobal: g belongs to the analysed package, has pointer/interface type,
+// and its only store is one in the package initialiser of a value that cannot
+// be nil (allocation, call of errors.New / fmt.Errorf, composite literal).
+func (p *Prog) NonNilGlobal(g *ssa.Global) bool {
+	if g.Pkg != p.SPkg {
+		return false
+	}
+	if p.nonNilG == nil {
+		p.nonNilG = map[*ssa.Global]bool{}
+		count := map[*ssa.Global]int{}
+		good := map[*ssa.Global]bool{}
+		fns := []*ssa.Function{p.SPkg.Func("init")}
+		for _, fn := range p.FuncList {
+			if fn != fns[0] {
+				fns = append(fns, fn)
+			}
+		}
+		for _, fn := range fns {
+			if fn == nil {
+				continue
+			}
+			isInit := fn.Synthetic != "" && fn.Name() == "init"
+			for _, b := range fn.Blocks {
+				for _, in := range b.Instrs {
+					st, ok := in.(*ssa.Store)
+					if !ok {
+						continue
+					}
+					gg, ok := st.Addr.(*ssa.Global)
+					if !ok {
+						continue
+					}
+					count[gg]++
+					if !isInit {
+						count[gg] += 100
+						continue
+					}
+					v := st.Val
+					for {
+						if mi, ok := v.(*ssa.MakeInterface); ok {
+							v = mi.X
+							continue
+						}
+						break
+					}
+					switch vv := v.(type) {
+					case *ssa.Alloc:
+						good[gg] = true
+					case *ssa.Call:
+						if f := vv.Call.StaticCallee(); f != nil && f.Object() != nil {
+							n := f.Object().(*types.Func).FullName()
+							if n == "errors.New" || n == "fmt.Errorf" {
+								good[gg] = true
+							}
+						}
+					}
+				}
+			}
+		}
+		seen := map[*ssa.Function]bool{}
+		_ = seen
+		for gg, n := range count {
+			if n == 1 && good[gg] {
+				p.nonNilG[gg] = true
+			}
+		}
+	}
+	return p.nonNilG[g]
+}
